@@ -176,6 +176,10 @@ def _check(pid, tier, sc, t0, sink=None):
     tie_broken = []
     if proof["problems"]:
         tie_broken.append(dict(kind="proof", detail=proof["problems"]))
+    import factcheck
+    facts = factcheck.run(bindir if os.path.exists(os.path.join(bindir, "factcheck")) else bindir, pid)
+    if facts["problems"]:
+        tie_broken.append(dict(kind="extracted-facts", detail=facts["problems"][:6]))
     ncases, nsched = {"quick": (900, 16), "thorough": (12000, 40)}[tier]
     corpus = load_corpus(pid)
     cases = corpus + genconc.catalogue() + gen_cases(pid, rng, ncases, nsched)
